@@ -20,11 +20,11 @@ open Cjet.Startup
     dispositions are as coded.  Per descriptor number: handed out as often as closed. -/
 theorem startup_releases_all_listeners (c : Cfg) (script : List Ans) :
     ListenersReleased (run c script).2.led ∧
-    SignalsAsCoded (run c script).1 (run c script).2.tr (run c script).2.led ∧
+    SignalsAsCoded c.code.restoreOnPipeFail (run c script).1 (run c script).2.tr (run c script).2.led ∧
     ∀ fd, opens fd (run c script).2.tr = closes fd (run c script).2.tr := by
   have h := runIo_spec c (K.start script) rfl
   have key : ListenersReleased (run c script).2.led ∧
-      SignalsAsCoded (run c script).1 (run c script).2.tr (run c script).2.led := by
+      SignalsAsCoded c.code.restoreOnPipeFail (run c script).1 (run c script).2.tr (run c script).2.led := by
     unfold run
     generalize runIo c (K.start script) = r at h
     obtain ⟨e, k⟩ := r
@@ -32,10 +32,10 @@ theorem startup_releases_all_listeners (c : Cfg) (script : List Ans) :
     cases e with
     | signalFailed =>
       dsimp only at h
-      rcases h.2 with h | ⟨h, hp⟩
+      rcases h.2 with h | ⟨hr, h, hp⟩
       · rw [show k.led = ({} : Led) from h]; exact ⟨by simp [ListenersReleased], Or.inl ⟨rfl, rfl⟩⟩
       · rw [show k.led = _ from h]
-        exact ⟨by simp [ListenersReleased], Or.inr ⟨rfl, hp, rfl, rfl⟩⟩
+        exact ⟨by simp [ListenersReleased], Or.inr ⟨hr, rfl, hp, rfl, rfl⟩⟩
     | initFailed =>
       dsimp only at h
       rw [show k.led = _ from h.2]
@@ -44,7 +44,7 @@ theorem startup_releases_all_listeners (c : Cfg) (script : List Ans) :
       cases s with
       | startFailed m =>
         dsimp only at h
-        obtain ⟨_, _, ps, hl⟩ := h
+        obtain ⟨_, _, ps, hl, _⟩ := h
         rw [show k.led = _ from hl]
         exact ⟨finalLed_released _ _, Or.inl ⟨rfl, rfl⟩⟩
       | jet j =>
@@ -55,35 +55,78 @@ theorem startup_releases_all_listeners (c : Cfg) (script : List Ans) :
           exact ⟨finalLed_released _ _, Or.inl ⟨rfl, rfl⟩⟩
         | privFailed =>
           dsimp only at h
-          obtain ⟨_, ps, hl⟩ := h
+          obtain ⟨_, ps, hl, _⟩ := h
           rw [show k.led = _ from hl]
           exact ⟨finalLed_released _ _, Or.inl ⟨rfl, rfl⟩⟩
         | daemonFailed =>
           dsimp only at h
-          obtain ⟨_, ps, hl⟩ := h
+          obtain ⟨_, ps, hl, _⟩ := h
           rw [show k.led = _ from hl]
           exact ⟨finalLed_released _ _, Or.inl ⟨rfl, rfl⟩⟩
   refine ⟨key.1, key.2, fun fd => ?_⟩
   obtain ⟨ho, _, _, _, _, _, hd, _, hm, _⟩ := key.1
   exact opens_eq_closes _ hd hm ho fd
 
+/-- C07 / C15, failure at start-up, FULL strength for the repaired code (fixes/Fstartup-1.diff: run_io destroys
+    peers and connections before it destroys the loop): whatever fails, and whatever was accepted before,
+    nothing is left when run_io returns. -/
+theorem startup_failure_releases_all (c : Cfg) (script : List Ans) (hcode : c.code.destroyAtEnd = true) :
+    ListenersReleased (run c script).2.led ∧ (run c script).2.led.peers = [] ∧
+    SignalsAsCoded c.code.restoreOnPipeFail (run c script).1 (run c script).2.tr (run c script).2.led ∧
+    ∀ fd, opens fd (run c script).2.tr = closes fd (run c script).2.tr := by
+  have h := startup_releases_all_listeners c script
+  refine ⟨h.1, ?_, h.2.1, h.2.2⟩
+  have hs := runIo_spec c (K.start script) rfl
+  unfold run
+  generalize runIo c (K.start script) = r at hs
+  obtain ⟨e, k⟩ := r
+  dsimp only at hs ⊢
+  cases e with
+  | signalFailed =>
+    dsimp only at hs
+    rcases hs.2 with h | ⟨_, h, _⟩ <;> rw [show k.led = _ from h]
+  | initFailed => dsimp only at hs; rw [show k.led = _ from hs.2]; rfl
+  | servers s =>
+    cases s with
+    | startFailed m =>
+      dsimp only at hs
+      obtain ⟨_, _, ps, hl, hp⟩ := hs
+      rw [show k.led = _ from hl, hp hcode]; rfl
+    | jet j =>
+      cases j with
+      | ran b => dsimp only at hs; rw [show k.led = _ from hs.2]; rfl
+      | privFailed => dsimp only at hs; obtain ⟨_, ps, hl, hp⟩ := hs; rw [show k.led = _ from hl, hp hcode]; rfl
+      | daemonFailed => dsimp only at hs; obtain ⟨_, ps, hl, hp⟩ := hs; rw [show k.led = _ from hl, hp hcode]; rfl
+
+-- the script of the counterexample below, on the repaired code: nothing is left
+example : (run ⟨false, false, true, .repaired⟩ ((List.replicate 11 Ans.ok) ++ [.conn, .ok, .fail])).1.ret = -1 ∧
+    (run ⟨false, false, true, .repaired⟩ ((List.replicate 11 Ans.ok) ++ [.conn, .ok, .fail])).2.led = finalLed [] 0 := by
+  decide +kernel
+
+/-- with both repairs the handlers are restored on every path -/
+theorem signals_restored (c : Cfg) (script : List Ans) (hcode : c.code.restoreOnPipeFail = true) :
+    (run c script).2.led.term = .dfl ∧ (run c script).2.led.int = .dfl := by
+  rcases (startup_releases_all_listeners c script).2.1 with h | ⟨h, _⟩
+  · exact h
+  · rw [hcode] at h; cases h
+
 /-- C07 / C15, failure at start-up, partial form: when run_io returns an error and no connection was
     accepted during the first accept passes, NOTHING is left: no descriptor, no registration, no addrinfo
     list, no peer, handlers as coded.
-    Full statement (false for the code as it is, see the counterexample): the same without the hypothesis
-    `hno`. -/
+    Full statement (false for the code as it is — `Code.asIs` —, see the counterexample; true for the repaired
+    code, `startup_failure_releases_all`): the same without the hypothesis `hno`. -/
 theorem startup_failure_releases_all_partial (c : Cfg) (script : List Ans)
     (_hret : (run c script).1.ret ≠ 0)
     (hno : noPeerAccepted (run c script).2.tr = true) :
     ListenersReleased (run c script).2.led ∧ (run c script).2.led.peers = [] ∧
-    SignalsAsCoded (run c script).1 (run c script).2.tr (run c script).2.led ∧
+    SignalsAsCoded c.code.restoreOnPipeFail (run c script).1 (run c script).2.tr (run c script).2.led ∧
     ∀ fd, opens fd (run c script).2.tr = closes fd (run c script).2.tr := by
   have h := startup_releases_all_listeners c script
   exact ⟨h.1, peers_nil_of_noPeerAccepted _ hno, h.2.1, h.2.2⟩
 
 -- the hypotheses are satisfiable: bind of the second listener fails
-example : (run ⟨false, false, true⟩ ((List.replicate 16 Ans.ok) ++ [.fail])).1.ret ≠ 0 ∧
-    noPeerAccepted (run ⟨false, false, true⟩ ((List.replicate 16 Ans.ok) ++ [.fail])).2.tr = true := by
+example : (run ⟨false, false, true, .asIs⟩ ((List.replicate 16 Ans.ok) ++ [.fail])).1.ret ≠ 0 ∧
+    noPeerAccepted (run ⟨false, false, true, .asIs⟩ ((List.replicate 16 Ans.ok) ++ [.fail])).2.tr = true := by
   decide +kernel
 
 /-- FINDING: a connection accepted by the first accept pass of a listener is never released when a LATER
@@ -92,25 +135,25 @@ example : (run ⟨false, false, true⟩ ((List.replicate 16 Ans.ok) ++ [.fail]))
     one connection (descriptor 11), then `socket()` for the websocket listener fails: run_io returns -1 with
     descriptor 11 (and its peer) still alive. -/
 theorem startup_failure_releases_all_counterexample :
-    (run ⟨false, false, true⟩ ((List.replicate 11 Ans.ok) ++ [.conn, .ok, .fail])).1.ret = -1 ∧
-    (run ⟨false, false, true⟩ ((List.replicate 11 Ans.ok) ++ [.conn, .ok, .fail])).2.led.peers = [(11, .jet)] := by
+    (run ⟨false, false, true, .asIs⟩ ((List.replicate 11 Ans.ok) ++ [.conn, .ok, .fail])).1.ret = -1 ∧
+    (run ⟨false, false, true, .asIs⟩ ((List.replicate 11 Ans.ok) ++ [.conn, .ok, .fail])).2.led.peers = [(11, .jet)] := by
   decide +kernel
 
 /-- the same leak through run_jet's own early returns: every listener is up, a connection was accepted,
     then `daemon()` fails (or privileges cannot be dropped): run_jet returns before destroy_all_peers -/
 theorem startup_failure_leaks_peer_when_daemon_fails :
-    (run ⟨false, false, false⟩ ((List.replicate 11 Ans.ok) ++ [.conn] ++ List.replicate 17 Ans.ok ++ [.fail])).1 =
+    (run ⟨false, false, false, .asIs⟩ ((List.replicate 11 Ans.ok) ++ [.conn] ++ List.replicate 17 Ans.ok ++ [.fail])).1 =
       .servers (.jet .daemonFailed) ∧
-    (run ⟨false, false, false⟩ ((List.replicate 11 Ans.ok) ++ [.conn] ++ List.replicate 17 Ans.ok ++ [.fail])).2.led.peers =
+    (run ⟨false, false, false, .asIs⟩ ((List.replicate 11 Ans.ok) ++ [.conn] ++ List.replicate 17 Ans.ok ++ [.fail])).2.led.peers =
       [(11, .jet)] := by
   decide +kernel
 
 /-- OBSERVATION: when `signal(SIGPIPE, SIG_IGN)` fails, register_signal_handler returns -1 with the SIGTERM and
     SIGINT handlers still installed (the SIGINT failure path does restore SIGTERM). -/
 theorem signals_restored_counterexample :
-    (run ⟨false, false, true⟩ [.ok, .ok, .fail]).1 = .signalFailed ∧
-    (run ⟨false, false, true⟩ [.ok, .ok, .fail]).2.led.term = .handler ∧
-    (run ⟨false, false, true⟩ [.ok, .ok, .fail]).2.led.int = .handler := by
+    (run ⟨false, false, true, .asIs⟩ [.ok, .ok, .fail]).1 = .signalFailed ∧
+    (run ⟨false, false, true, .asIs⟩ [.ok, .ok, .fail]).2.led.term = .handler ∧
+    (run ⟨false, false, true, .asIs⟩ [.ok, .ok, .fail]).2.led.int = .handler := by
   decide
 
 /-- Descriptor hygiene, at every point of every run: a `close(fd)` happens only on a descriptor that is
@@ -138,8 +181,8 @@ theorem remove_before_close (c : Cfg) (script : List Ans) (pre post : List Ev) (
   · simp only [step, ho, if_false] at hd'
     omega
 
-example : ∃ pre post, (run ⟨false, false, true⟩ []).2.tr = pre ++ Ev.close 12 :: post := by
-  refine ⟨(run ⟨false, false, true⟩ []).2.tr.take 32, (run ⟨false, false, true⟩ []).2.tr.drop 33, ?_⟩
+example : ∃ pre post, (run ⟨false, false, true, .asIs⟩ []).2.tr = pre ++ Ev.close 12 :: post := by
+  refine ⟨(run ⟨false, false, true, .asIs⟩ []).2.tr.take 32, (run ⟨false, false, true, .asIs⟩ []).2.tr.drop 33, ?_⟩
   decide
 
 /-- every system call on a listener descriptor (setsockopt, fcntl, bind, listen, accept, loop add) is made
@@ -184,7 +227,7 @@ theorem startup_success_owns_exactly (c : Cfg) (script : List Ans) (acc : List (
     have hu := ups_loopUp bootLed acc
     first | exact r1 | exact r2 | exact r3 | exact hu | exact r4 | exact r5 | exact r6 | exact r7 | exact r8 | exact r9)
 
-example : ∃ acc k1, bootPhase ⟨true, false, true⟩ (K.start []) = some (acc, true, k1) ∧
+example : ∃ acc k1, bootPhase ⟨true, false, true, .asIs⟩ (K.start []) = some (acc, true, k1) ∧
     acc.map (·.2) = [14, 13, 12, 11, 10] := ⟨_, _, rfl, by decide⟩
 
 /-- run_io returns 0 only if every listener of the configuration had been started -/
@@ -217,8 +260,8 @@ theorem shutdown_releases_all (c : Cfg) (script : List Ans) (b : Bool)
   refine ⟨by rw [hs.2, udsIn_listeners], ?_, hs.1, (startup_releases_all_listeners c script).2.2⟩
   rw [h]; cases b <;> rfl
 
-example : (run ⟨true, true, false⟩ []).1 = .servers (.jet (.ran true)) := by decide
-example : (run ⟨false, false, true⟩ ((List.replicate 28 Ans.ok) ++ [.fail])).1 = .servers (.jet (.ran false)) := by decide
+example : (run ⟨true, true, false, .asIs⟩ []).1 = .servers (.jet (.ran true)) := by decide
+example : (run ⟨false, false, true, .asIs⟩ ((List.replicate 28 Ans.ok) ++ [.fail])).1 = .servers (.jet (.ran false)) := by decide
 
 /-- … in the intended order: after the loop returns, peers and HTTP connections are destroyed first, then the
     listeners are stopped newest first (unix socket: remove, close, unlink; then the websocket and jet
@@ -228,6 +271,7 @@ theorem shutdown_order (c : Cfg) (script : List Ans) (b : Bool)
     ∃ acc k1 mid, bootPhase c (K.start script) = some (acc, true, k1) ∧
       acc.map (·.1) = (listeners c).reverse ∧
       (run c script).2.tr = k1.tr ++ mid ++ [.run b, .destroyPeers, .destroyConns] ++ stopEvents acc ++
+        (if c.code.destroyAtEnd then [.destroyPeers, .destroyConns] else []) ++
         [.destroy, .signal .int .dfl true, .signal .term .dfl true] ∧
       ∀ e ∈ mid, e = .getpwnam true ∨ e = .setgid true ∨ e = .setuid true ∨ e = .daemon true := by
   cases hb : bootPhase c (K.start script) with
@@ -244,8 +288,8 @@ theorem shutdown_order (c : Cfg) (script : List Ans) (b : Bool)
       obtain ⟨mid, ht, hmid⟩ := runJet_tr c k1 b hj
       refine ⟨acc, k1, mid, rfl, (startup_success_owns_exactly c script acc k1 hb).1, ?_, hmid⟩
       unfold run; rw [he]
-      simp only [unregisterSignals, K.emit, stopAll_tr, ht]
-      simp
+      unfold finish
+      split <;> simp [unregisterSignals, K.emit, stopAll_tr, ht]
 
 /-- The unix socket: it is bound to the ABSTRACT name (the model has no other target for it; the tie checks
     the sockaddr on the real code), so no file is ever created.  `unlink(UDS_FILE)` is executed exactly once
@@ -262,19 +306,19 @@ theorem unix_path_unlinked (c : Cfg) (script : List Ans) :
   cases e with
   | signalFailed =>
     dsimp only at hs ⊢
-    rcases hs.2 with h | ⟨h, _⟩ <;> rw [show k.led = _ from h]
+    rcases hs.2 with h | ⟨_, h, _⟩ <;> rw [show k.led = _ from h]
   | initFailed => dsimp only at hs ⊢; rw [show k.led = _ from hs.2]; rfl
   | servers s =>
     cases s with
     | startFailed m =>
       dsimp only at hs ⊢
-      obtain ⟨_, hm, ps, hl⟩ := hs
+      obtain ⟨_, hm, ps, hl, _⟩ := hs
       rw [show k.led = _ from hl, udsIn_take c m hm]; rfl
     | jet j =>
       cases j with
       | ran b => dsimp only at hs ⊢; rw [show k.led = _ from hs.2, udsIn_listeners]; rfl
-      | privFailed => dsimp only at hs ⊢; obtain ⟨_, ps, hl⟩ := hs; rw [show k.led = _ from hl, udsIn_listeners]; rfl
-      | daemonFailed => dsimp only at hs ⊢; obtain ⟨_, ps, hl⟩ := hs; rw [show k.led = _ from hl, udsIn_listeners]; rfl
+      | privFailed => dsimp only at hs ⊢; obtain ⟨_, ps, hl, _⟩ := hs; rw [show k.led = _ from hl, udsIn_listeners]; rfl
+      | daemonFailed => dsimp only at hs ⊢; obtain ⟨_, ps, hl, _⟩ := hs; rw [show k.led = _ from hl, udsIn_listeners]; rfl
 
 /-- run_io returns 0 exactly when it got through everything and the loop returned 0; every other end — a
     signal handler that cannot be installed, loop init, any listener that cannot be created / registered /
